@@ -71,6 +71,7 @@ structure Facts where
   alias : Option Nat
   srid : Option (Int × Int)
   changed : List Nat
+  oob : Bool
 
 def parseSrid (s : String) : Option (Option (Int × Int)) :=
   if s == "-" then some none
@@ -81,15 +82,15 @@ def parseSrid (s : String) : Option (Option (Int × Int)) :=
     | _ => none
 
 def parseFacts : List String → Option Facts
-  | [r] => (parseRet r).map (fun r => ⟨r, false, [], none, none, []⟩)
-  | [r, m, res, al, sr, ch] => do
+  | [r] => (parseRet r).map (fun r => ⟨r, false, [], none, none, [], false⟩)
+  | [r, m, res, al, sr, ch, ob] => do
     let r ← parseRet r
     let msg ← if m == "m1" then some true else if m == "m0" then some false else none
     let res ← if res.startsWith "R" then parseIds (after res 1) else none
     let al ← if al == "a-" then some none else if al.startsWith "a" then (after al 1).toNat?.map some else none
     let sr ← if sr.startsWith "s" then parseSrid (after sr 1) else none
     let ch ← if ch.startsWith "M" then parseIds (after ch 1) else none
-    some ⟨r, msg, res, al, sr, ch⟩
+    some ⟨r, msg, res, al, sr, ch, ob == "O1"⟩
   | _ => none
 
 def splitArrow (ws : List String) : List String × List String :=
@@ -114,6 +115,8 @@ def oneCall (k : Nat) (h : Heap) (ws : List String) : Except String Heap := do
     -- an allocation the sanitizer runtime refuses is `std::bad_alloc` (→ error value) in a normal build
     if cls == "oom" then throw "ok" else let _ ← bad cls
   | _ => pure ()
+  -- an index beyond the object's size must be rejected with the error value and a message
+  if f.oob && !f.msg then let _ ← bad "crash:oob-index@"
   let isErrVal := (errVals e).any (retIs f.ret)
   -- outcome class
   if f.msg && e.ret != RetClass.void && !isErrVal then let _ ← bad "UNDOCUMENTED:error-message-but-not-the-error-value"
